@@ -23,9 +23,12 @@ Brk == [k |-> "break"]
 Cont == [k |-> "continue"]
 Ext == [k |-> "exit"]
 Ret(e) == [k |-> "return", e |-> e]
-Func(f, p, body) == [k |-> "func", f |-> f, p |-> p, body |-> body]
+Func(f, p, body) == [k |-> "func", f |-> f, p |-> p, body |-> body, q |-> "", d |-> L(0)]
+Func2(f, p, q, d, body) == [k |-> "func", f |-> f, p |-> p, body |-> body, q |-> q, d |-> d]
+WhileIn(x, decl, c, body) == [k |-> "whilein", x |-> x, decl |-> decl, c |-> c, body |-> body]
 
-CurDecl(c, v) == [k |-> "curdecl", c |-> c, v |-> v]
+CurDecl(c, v) == [k |-> "curdecl", c |-> c, vs |-> <<v>>]
+CurDeclN(c, vs) == [k |-> "curdecl", c |-> c, vs |-> vs]
 CurUse(c, x) == [k |-> "curuse", c |-> c, x |-> x]
 CurDisp(c) == [k |-> "curdispose", c |-> c]
 TabDecl(t, v) == [k |-> "tabdecl", t |-> t, v |-> v]
@@ -72,11 +75,28 @@ Sk8 == {<<VarS("@a", L(0)), h1, If2(Lt(Vr("@a"), L(1)), <<h2, h3>>, <<h2>>), h4,
 Sk9 == {<<VarS("@a", L(0)), VarS("@i", L(0)), h1, While(Lt(Vr("@i"), L(2)), <<SetS("@i", Add(Vr("@i"), L(1))), h2, h3>>), h4>> : h1, h2, h3, h4 \in Objs}
 Sk10 == {<<VarS("@a", L(0)), h1, Func("f", "@p", <<h2, h3, Ret(Vr("@a"))>>), Pr(CallF("f", L(1))), Pr(CallF("f", L(2))), h4>> : h1, h2, h3, h4 \in Objs}
 
-Programs == Sk1 \cup Sk2 \cup Sk3 \cup Sk4 \cup Sk5 \cup Sk6 \cup Sk7 \cup Sk8 \cup Sk9 \cup Sk10
+\* a DEFAULT expression is evaluated at every call that omits the parameter
+Sk11 == {<<VarS("@a", L(1)), Func2("g", "@p", "@q", Add(Vr("@p"), Vr("@a")), <<h1, Ret(Add(Vr("@p"), Vr("@q")))>>),
+           Pr(CallF("g", L(10))), h2, SetS("@a", L(5)), Pr(CallF("g", L(10))), Pr(CallF("g", L(20)))>>
+         : h1 \in InFunc \cup {SetS("@q", L(0)), Pr(Vr("@q"))}, h2 \in Basic}
+\* a loop over a cursor inside a function, left by RETURN; afterwards blocks nested four deep and a recursion of depth 4
+Fact == Func("fact", "@n", <<If1(Lt(Vr("@n"), L(2)), <<Ret(L(1))>>), VarS("@m", CallF("fact", Add(Vr("@n"), L(-1)))), Ret(Add(Vr("@m"), Vr("@n")))>>)
+InCurLoop == { Pr(Vr("@x")), Cont, Brk, VarS("@t", Vr("@x")), SetS("@a", Add(Vr("@a"), Vr("@x"))), If1(Lt(L(1), Vr("@x")), <<Brk>>) }
+Sk12 == {<<VarS("@a", L(0)), Fact,
+           Func("agg", "@p", <<CurDeclN("c", <<1, 2, 3>>), WhileIn("@x", d, "c", <<h1, If1(Lt(Vr("@p"), Vr("@x")), <<Ret(Vr("@x"))>>)>>), Ret(L(-1))>>),
+           VarS("@x", L(0)), Pr(CallF("agg", L(1))), Pr(CallF("agg", L(5))), Pr(Vr("@a")),
+           If1(Lt(L(0), L(1)), <<VarS("@a", L(2)), If1(Lt(L(0), L(1)), <<VarS("@a", L(3)), If1(Lt(L(0), L(1)), <<VarS("@a", L(4)), h2, Pr(Vr("@a"))>>), Pr(Vr("@a"))>>), Pr(Vr("@a"))>>),
+           Pr(Vr("@a")), Pr(CallF("fact", L(4))), Pr(CallF("agg", L(2)))>>
+         : h1 \in InCurLoop, h2 \in Basic, d \in BOOLEAN}
+\* the same loop at top level over an outer cursor (left open by EXIT only)
+Sk13 == {<<VarS("@a", L(0)), VarS("@x", L(0)), CurDeclN("c", <<1, 2, 3>>), WhileIn("@x", d, "c", <<h1, h2>>), Pr(Vr("@a")), Pr(Vr("@x")), CurUse("c", "@a"), Pr(Vr("@a"))>>
+         : h1, h2 \in InCurLoop \cup {Ext}, d \in BOOLEAN}
 
-CONSTANT Fuel
+Programs == Sk11 \cup Sk12 \cup Sk13 \cup Sk1 \cup Sk2 \cup Sk3 \cup Sk4 \cup Sk5 \cup Sk6 \cup Sk7 \cup Sk8 \cup Sk9 \cup Sk10
+
+CONSTANTS Fuel, ProgSet      \* ProgSet: the programs of this run (all families, or one)
 VARIABLE prog
-Init == prog \in Programs
+Init == prog \in ProgSet
 Next == UNCHANGED prog
 Emit == LET r == Run(prog, Fuel)  r2 == RunNS(prog, Fuel, TRUE) IN
         r.end = "FUEL" \/ PrintT(<<"TRACE", ToJson([prog |-> prog, out |-> r.out, end |-> r.end, out2 |-> r2.out, end2 |-> r2.end])>>)
